@@ -772,171 +772,13 @@ def describe(case, obs):
 # regenerated _ensure_final_newline (Gen/TrStruct.v) and C09's regenerated OrderedSet.add.  Primitives: coq/Repro/DocTrPrims.v;
 # proofs coq/Repro/DocTie.v; statements coq/Props/C05Tie.v.
 from harness import extract            # noqa: E402
-from harness import py2coq as _P       # noqa: E402
-from harness.props import c10 as _c10  # noqa: E402
-
-_LF = ("literal", "'\\n'", "tt")
-_HASH = ("literal", "'#'", "tt")
-
-_C = _c10
-_T_KV, _T_KVD, _T_OS, _T_KEY, _T_STRI, _T_ANY, _T_TOK = _C._T_KV, _C._T_KVD, _C._T_OS, _C._T_KEY, _C._T_STRI, _C._T_ANY, _C._T_TOK
-_T_OKV = ("option", _T_KV)
-_T_PARA = ("coq", "pararef")
-_ND = _C._ND
-
-_nd_get = _C._nd_r("tr_nd_get_kvpair_element", _ND + "get_kvpair_element", [("item", _T_KEY), ("use_get", "bool")], _T_OKV,
-                   locals={"_": _T_ANY})
-_nd_get.retype = {"item": [_T_STRI]}
-_nd_set = _C._nd_w("tr_nd_set_kvpair_element", _ND + "set_kvpair_element", [("key", _T_KEY), ("value", _T_KV)], "unit",
-                   locals={"_": _T_ANY, "original_value": _T_OKV})
-_nd_set.retype = {"key": [_T_STRI]}
-_nd_set.narrow = True
-
-_T_CE = ("coq", "celem")
-_T_OCE = ("option", _T_CE)
-_T_CM = ("coq", "commentish")
-_T_OCM = ("option", _T_CM)
-_T_OB = ("option", "bool")
-_T_PF = ("coq", "pfile")
-_T_PP = ("coq", "ppara")
-_T_ET = ("coq", "errtok")
-_LS = ("list", "str")
-_PE = "Deb822ParagraphElement."
-_ND_GV = _C._ND_GV
-_KWS = [None, None, "preserve_original_field_comment", "field_comment"]
-
-_set_raw = _C._nd_w("tr_nd_set_field_from_raw_string", _PE + "set_field_from_raw_string",
-                    [("item", _T_KEY), ("raw_string_value", "str"), ("preserve_original_field_comment", _T_OB),
-                     ("field_comment", _T_OCM)], "unit",
-                    locals={"new_content": _LS, "field_name": _T_STRI, "_": _T_ANY, "cased_field_name": _T_STRI,
-                            "original": _T_OKV, "raw": "str", "raw_lines": _LS, "i": "Z", "line": "str", "msg": "str",
-                            "deb822_file": _T_PF, "error_token": ("option", _T_ET), "paragraph": _T_PP, "value": _T_OKV})
-_set_raw.narrow = True
-_set_raw.join_defines = True
-_set_simple = _C._nd_w("tr_nd_set_field_to_simple_value", _PE + "set_field_to_simple_value",
-                       [("item", _T_KEY), ("simple_value", "str"), ("preserve_original_field_comment", _T_OB),
-                        ("field_comment", _T_OCM)], "unit", locals={"raw_value": "str"})
-_setitem = _C._nd_w("tr_nd_setitem", "Deb822ParagraphToStrWrapperMixin.__setitem__", [("item", _T_KEY), ("value", "str")], "unit",
-                    locals={"keep_comments": _T_OB, "comment": _T_OCE, "key_lookup": _T_KEY, "orig_kvpair": _T_OKV,
-                            "idx": "Z", "first_line": "str", "rest": "str"})
-_setitem.narrow = True
-_setitem.join_defines = True
-
-TR_MODULE = _P.Module(
-    "TrDocSet", "lib/debian/_deb822_repro/parsing.py",
-    funs=[
-        _P.Fun("tr_format_comment", "_format_comment", [("c", "str")], "str"),
-        _nd_get, _nd_set, _set_raw, _set_simple, _setitem,
-    ],
-    calls={
-        "_unpack_key": [_C._t_kw(_P.Call("trp_unpack_key", [_T_KEY, "bool"], _C._T_UNPACKED, True), [None, "raise_if_indexed"]),
-                        _P.Call("(fun k_ => trp_unpack_key k_ false)", [_T_KEY], _C._T_UNPACKED, True)],   # the default
-        "isinstance": [_P.Call("trp_stri_is_nametoken", [_T_STRI, ("literal", "Deb822FieldNameToken", "tt")], "bool"),
-                       _P.Call("trp_cm_is_comment_element", [_T_CM, ("literal", "Deb822CommentElement", "tt")], "bool"),
-                       _P.Call("trp_pp_is_nodup", [_T_PP, ("literal", "Deb822NoDuplicateFieldsParagraphElement", "tt")], "bool"),
-                       _P.Call("trp_key_is_str", [_T_KEY, ("literal", "str", "tt")], "bool")],
-        "_format_comment": _P.Call("tr_format_comment", ["str"], "str", True),
-        "<commentish>.__iter__": _P.Call("trp_cm_iter", [_T_CM], _LS, True),
-        "<str>.join": [_P.Call("trp_join2", ["str", ("tuple", _T_STRI, "str")], "str"),
-                       _P.Call("trp_join4", ["str", ("tuple", "str", "str", "str", "str")], "str")],
-        "<str>.splitlines": _C._t_kw(_P.Call("trp_splitlines_keep", ["str", ("literal", "True", "tt")], _LS), [None, "keepends"]),
-        "enumerate": _C._t_kw(_P.Call("trp_enumerate", [_LS, "Z"], ("list", ("tuple", "Z", "str"))), [None, "start"]),
-        "<str>.format": [_C._t_kw(_P.Call("trp_fmt_i", ["str", "Z"], "str"), [None, "i"]),
-                         _C._t_kw(_P.Call("trp_fmt_i_line", ["str", "Z", "char"], "str"), [None, "i", "line"])],
-        "iter": [_P.Call("", [_LS], _LS), _P.Call("", [_T_PF], _T_PF)],
-        "parse_deb822_file": _P.Call("trp_parse_file", [_LS], _T_PF, True),
-        "<pfile>.find_first_error_element": _P.Call("trp_pf_first_error", [_T_PF], ("option", _T_ET)),
-        "next": _P.Call("trp_pf_first_para", [_T_PF], _T_PP, True),
-        "<ppara>.get_kvpair_element": _C._t_sub("trp_pp_get", [_T_PP, _T_STRI], _T_OKV, ["kvs"]),
-        "self.get_kvpair_element": _C._t_kw(_P.Call("tr_nd_get_kvpair_element " + _ND_GV, [_T_KEY, "bool"], _T_OKV, True),
-                                            [None, "use_get"]),
-        "self._paragraph.get_kvpair_element": _C._t_kw(_P.Call("tr_nd_get_kvpair_element " + _ND_GV, [_T_KEY, "bool"], _T_OKV, True),
-                                                       [None, "use_get"]),
-        "self.set_kvpair_element": _C._t_sub("tr_nd_set_kvpair_element lower", [_T_KEY, _T_KV], "unit", _C._ND_V),
-        "self.set_field_from_raw_string": _C._t_kw(_C._t_sub("tr_nd_set_field_from_raw_string lower",
-                                                             [_T_KEY, "str", _T_OB, _T_OCM], "unit", _C._ND_V), _KWS),
-        "self._paragraph.set_field_from_raw_string": _C._t_kw(_C._t_sub("tr_nd_set_field_from_raw_string lower",
-                                                                        [_T_KEY, "str", _T_OB, _T_OCM], "unit", _C._ND_V), _KWS),
-        "self._paragraph.set_field_to_simple_value": _C._t_kw(_C._t_sub("tr_nd_set_field_to_simple_value lower",
-                                                                        [_T_KEY, "str", _T_OB, _T_OCM], "unit", _C._ND_V), _KWS),
-        "<str>.index": _P.Call("trp_index_lf", ["str", _LF], "Z", True),
-        "<str>.split": _P.Call("trp_split_lf_1", ["str", _LF, ("literal", "1", "tt")], _LS),
-        "is": _P.Call("trp_stri_is_token", [_T_STRI, _T_TOK], "bool"),
-        "<kvdict>.get": _P.Call("trp_kvd_get_opt lower", [_T_KVD, _T_STRI], _T_OKV),
-        "<kvdict>.__getitem__": _P.Call("trp_kvd_get lower", [_T_KVD, _T_STRI], _T_KV, True),
-        "<kvdict>.__setitem__": _P.Call("trp_kvd_set lower", [_T_KVD, _T_STRI, _T_KV], "unit", mutates=True),
-        "<stri>.__eq__": _P.Call("trp_stri_eqb lower", [_T_STRI, _T_STRI], "bool"),
-        "self._ensure_final_newline": _C._t_sub("tr_nd_ensure_final_newline lower", [], "unit", _C._ND_V),
-        "self._kvpair_order.append": _C._t_sub("trp_os_add lower", [_T_STRI], "unit", ["hp", "s_order"]),
-        "<str>.endswith": _P.Call("trp_ends_nl", ["str", _LF], "bool"),
-        "<str>.startswith": _P.Call("trp_starts_hash", ["str", _HASH], "bool"),
-        "<str>.rstrip": _P.Call("trp_rstrip", ["str"], "str"),
-        "<str>.lstrip": _P.Call("trp_lstrip", ["str"], "str"),
-        "<str>.strip": _P.Call("trp_strip", ["str"], "str"),
-    },
-    consts={"self._kvpair_elements": ("s_kv", _T_KVD), "self._kvpair_order": ("s_order", _T_OS),
-            "self": ("trp_self_para", _T_PARA),
-            "self._preserve_field_comments_on_field_updates": ("trp_flag_true", "bool"),
-            "self._auto_resolve_ambiguous_fields": ("trp_flag_true", "bool"),
-            "self._auto_map_initial_line_whitespace": ("trp_flag_true", "bool"),
-            "self._auto_map_final_newline_in_multiline_values": ("trp_flag_true", "bool")},
-    imports=["Gen.TrStruct", "Dict.Common", "Dict.Heap", "Dict.TrPrims", "Repro.StructTrPrims", "Repro.DocTrPrims"])
-
-_T_KVCLASS = _P.HeapClass(
-    "kvelem", fields={},
-    props={"field_name": (_P.Call("trp_kv_field_name kvs", [_T_KV], _T_STRI, True), None),
-           "field_token": (_P.Call("trp_kv_field_token kvs", [_T_KV], _T_TOK, True), None),
-           "comment_element": (_P.Call("trp_kv_comment kvs", [_T_KV], _T_OCE, True),
-                               _C._t_sub("trp_kv_set_comment", [_T_KV, _T_OCE], "unit", ["kvs"])),
-           "parent_element": (None, _C._t_sub("trp_kv_set_parent", [_T_KV, ("option", _T_PARA)], "unit", ["kvs"]))})
-TR_MODULE.heap = _P.Heap("hp", _C._T_HEAP, {"Deb822KeyValuePairElement": _T_KVCLASS}, assume="trp_assume_some")
-TR_MODULE.coercions = _C._T_COERCIONS + [(("tuple", _T_KEY, "Z"), _T_KEY, "(trp_key_pair %s)"),
-                                         (("tuple", _T_STRI, "Z"), _T_KEY, "(trp_key_name_idx %s)"),
-                                         (_T_OCE, _T_OCM, "(option_map CElem %s)"),
-                                         (_T_CM, _T_OCE, "(trp_cm_as_elem %s)")]
-# in the try body of set_field_from_raw_string — self.get_kvpair_element of THIS class — a KeyError is never an
-# AmbiguousDeb822FieldKeyError (only _resolve_to_single_node of the duplicates class raises one)
-TR_MODULE.catches = {"AmbiguousDeb822FieldKeyError": ((), ())}
-
-
-# Code that the primitives of coq/Repro/DocTrPrims.v stand for and that the translator does not see, asserted as source text
-# (sha256 of ast.unparse, 16 hex digits): a change fails the translation closed.
-_T_SHA = {'AutoResolvingMixin._auto_resolve_ambiguous_fields': '017ac70533501efb',
- 'Deb822FileElement.find_first_error_element': '38bbbfef48e8f553',
- 'Deb822KeyValuePairElement.comment_element@getter': 'b125c8311d59b354',
- 'Deb822KeyValuePairElement.comment_element@setter': '498ca5cbf0365aeb',
- 'Deb822KeyValuePairElement.field_token': '95d24712e538402b',
- 'Deb822ParagraphElement._paragraph': '25bc91c6a6721b46',
- 'Deb822ParagraphToStrWrapperMixin._auto_map_final_newline_in_multiline_values': '4c8ddb2e0fa52f35',
- 'Deb822ParagraphToStrWrapperMixin._auto_map_initial_line_whitespace': '3cc7b60e9f4e40de',
- 'Deb822ParagraphToStrWrapperMixin._preserve_field_comments_on_field_updates': '558bdb44472b4184'}
-
-
-def _t_assert_set_sources(repo):
-    import ast
-    import hashlib
-    tree = extract._parse(repo, "lib/debian/_deb822_repro/parsing.py")
-    for qual, sha in _T_SHA.items():
-        got = hashlib.sha256(ast.unparse(_P.find_def(tree, qual)).encode()).hexdigest()[:16]
-        if got != sha:
-            raise extract.ExtractError("%s changed: a primitive of coq/Repro/DocTrPrims.v models the previous text" % qual)
-    # Deb822ParagraphElement does not override the four flags; OrderedSet.append is OrderedSet.add
-    cls = [n for n in tree.body if isinstance(n, ast.ClassDef) and n.name == "Deb822ParagraphElement"]
-    names = {n.name for n in cls[0].body if isinstance(n, ast.FunctionDef)} if len(cls) == 1 else None
-    if names is None or names & {"_auto_resolve_ambiguous_fields", "_auto_map_initial_line_whitespace",
-                                 "_auto_map_final_newline_in_multiline_values",
-                                 "_preserve_field_comments_on_field_updates"}:
-        raise extract.ExtractError("Deb822ParagraphElement overrides a flag property that DocTrPrims.v models as True")
-    util = extract._parse(repo, "lib/debian/_util.py")
-    if ast.unparse(_P.find_value(util, "OrderedSet.append")) != "add":
-        raise extract.ExtractError("OrderedSet.append is no longer OrderedSet.add")
 
 
 @extract.register("TrDocSet")
 def _gen_tr_docset(repo):
-    _c10._t_assert_sources(repo)           # _unpack_key, add_final_newline_if_missing, field_name, … (StructTrPrims.v)
-    _t_assert_set_sources(repo)
-    return _P.translate_module(repo, TR_MODULE)
+    # the spec lives in c05_tie.py and is imported here, when every props module is loaded (c10 imports c05)
+    from harness.props import c05_tie
+    return c05_tie.generate(repo)
 
 
 import os as _os    # noqa: E402
